@@ -253,15 +253,25 @@ func (c *tunnelChannel) Invoke(ctx context.Context, methodName string, req, resp
 	if err != nil {
 		return err
 	}
-	if err := str.SendMsg(req); err != nil {
+	// Make sure the stream is completely finished before we return an error:
+	// otherwise it gets finished later (or is just being finished by another
+	// goroutine), which writes to the locations given via grpc.Header and
+	// grpc.Trailer call options while the caller, to whom the call has
+	// already returned, may be reading them.
+	fail := func(err error) error {
+		str.cancelStream(err)
+		<-str.doneSignal
 		return err
 	}
+	if err := str.SendMsg(req); err != nil {
+		return fail(err)
+	}
 	if err := str.CloseSend(); err != nil {
-		return err
+		return fail(err)
 	}
 	err = str.RecvMsg(resp)
 	if err != nil {
-		return err
+		return fail(err)
 	}
 	// Make sure there are no more messages on the stream.
 	// Allocate another response (to make sure this call to
